@@ -467,6 +467,181 @@ Definition model_games_of (f : format) (lines : list BookModel.str) : list (list
 Definition book_notation_case_ok (f : format) (lines : list BookModel.str) (root : N) (observed : list oentry) : bool :=
   (rkey start_pos =? root) && book_case_ok root (model_games_of f lines) observed.
 
+(** ** Collision freedom, checked per tested book (design/12, item 11).
+    [NoColl] is a hypothesis of [threaded_is_resolve] / [book_moves_legal_once_threaded]; it cannot
+    be proved for all books (two positions may share a 64-bit key) but it is decidable for a given
+    one.  The correspondence run (verifh c19-cases) writes, for every generated collection,
+      [toks]  : the coordinate tokens of every game as the Simple book file carries them (an
+                illegal tail included),
+      [fens]  : the positions the ENGINE visited while replaying the games (start position
+                included, game by game), as FENs,
+    next to the [games] (keys before / after DoMove and the move, from the engine) and the real
+    book.  [book_visited_case_ok] walks the tokens with the MODEL (parse_token, Rules.make, the
+    zobrist key of the dumped tables) and checks
+      - no two visited positions that differ in placement / side / rights / en-passant square
+        share a key                                                        ([nocollb], the hypothesis),
+      - the model's steps are the engine's steps (same keys, same move codes, same line ends),
+      - the model's visited positions are the engine's, clocks included.
+    One pass: [walk_both] returns the visited positions with their keys and the steps. *)
+Fixpoint walk_both (key : pos -> N) (p : pos) (kp : N) (toks : list BookModel.str)
+  : list (pos * N) * list BookModel.step :=
+  match toks with
+  | [] => ([(p, kp)], [])
+  | t :: ts =>
+      match parse_token p t with
+      | Some m =>
+          let q := make p m in let kq := key q in
+          let r := walk_both key q kq ts in
+          ((p, kp) :: fst r, SAdd kp kq (code m) :: snd r)
+      | None => ([(p, kp)], [])
+      end
+  end.
+
+Lemma walk_both_spec key : forall toks p,
+  walk_both key p (key p) toks = (map (fun q => (q, key q)) (path_pos p toks), walk_pos key p toks).
+Proof.
+  induction toks as [|t ts IH]; intros p; cbn [walk_both path_pos walk_pos map]; [reflexivity|].
+  destruct (parse_token p t) as [m|]; [|reflexivity]. cbv zeta. rewrite IH. reflexivity.
+Qed.
+
+Definition nocollb_keyed (l : list (pos * N)) : bool :=
+  forallb (fun a => forallb (fun b => negb (snd a =? snd b) || core_eqb (fst a) (fst b)) l) l.
+
+Lemma forallb_map {A B} (f : B -> bool) (g : A -> B) l : forallb f (map g l) = forallb (fun x => f (g x)) l.
+Proof. induction l as [|a l IH]; [reflexivity|]. cbn [map forallb]. now rewrite IH. Qed.
+
+Lemma forallb_ext' {A} (f g : A -> bool) l : (forall x, f x = g x) -> forallb f l = forallb g l.
+Proof. intros H. induction l as [|a l IH]; [reflexivity|]. cbn [forallb]. now rewrite H, IH. Qed.
+
+Lemma nocollb_keyed_spec key ps : nocollb_keyed (map (fun q => (q, key q)) ps) = nocollb key ps.
+Proof.
+  unfold nocollb_keyed, nocollb. rewrite forallb_map. apply forallb_ext'. intros p. cbn [fst snd].
+  rewrite forallb_map. reflexivity.
+Qed.
+
+(* full equality of positions, clocks included *)
+Definition pos_eqb (p q : pos) : bool := core_eqb p q && (hmc p =? hmc q) && (fmn p =? fmn q).
+Lemma pos_eqb_sound p q : pos_eqb p q = true -> p = q.
+Proof.
+  unfold pos_eqb, core_eqb. rewrite !andb_true_iff. intros (((((H1 & H2) & H3) & H4) & H5) & H6).
+  apply BitView.listN_eqb_eq in H1. apply N.eqb_eq in H2, H3, H4, H5, H6.
+  destruct p, q. cbn in *. now subst.
+Qed.
+
+Fixpoint all2b {A B} (f : A -> B -> bool) (l : list A) (r : list B) : bool :=
+  match l, r with
+  | [], [] => true
+  | a :: l', b :: r' => f a b && all2b f l' r'
+  | _, _ => false
+  end.
+Lemma all2b_sound {A B} (f : A -> B -> bool) (g : B -> option A) :
+  (forall a b, f a b = true -> g b = Some a) ->
+  forall l r, all2b f l r = true -> map g r = map Some l.
+Proof.
+  intros H. induction l as [|a l IH]; intros [|b r] E; cbn [all2b] in E; try discriminate; [reflexivity|].
+  apply andb_true_iff in E as [E1 E2]. cbn [map]. now rewrite (H _ _ E1), (IH _ E2).
+Qed.
+
+Definition ostep_eqb (a b : ostep) : bool :=
+  let '(c1, n1, m1) := a in let '(c2, n2, m2) := b in (c1 =? c2) && (n1 =? n2) && (m1 =? m2).
+Lemma ostep_eqb_sound a b : ostep_eqb a b = true -> b = a.
+Proof.
+  destruct a as [[c1 n1] m1], b as [[c2 n2] m2]. unfold ostep_eqb. rewrite !andb_true_iff.
+  intros [[H1 H2] H3]. apply N.eqb_eq in H1, H2, H3. now subst.
+Qed.
+Lemma all2b_eq {A} (f : A -> A -> bool) : (forall a b, f a b = true -> b = a) ->
+  forall l r, all2b f l r = true -> r = l.
+Proof.
+  intros H. induction l as [|a l IH]; intros [|b r] E; cbn [all2b] in E; try discriminate; [reflexivity|].
+  apply andb_true_iff in E as [E1 E2]. now rewrite (H _ _ E1), (IH _ E2).
+Qed.
+
+Definition fen_is (p : pos) (fen : FenSpec.str) : bool :=
+  match FenSpec.parse fen with Some q => pos_eqb p q | None => false end.
+
+Definition book_visited_case_ok (games : list (list ostep)) (toks : list (list BookModel.str))
+                                (fens : list FenSpec.str) : bool :=
+  let k0 := rkey start_pos in
+  let both := map (walk_both rkey start_pos k0) toks in
+  let vis := flat_map fst both in
+  nocollb_keyed vis
+  && all2b (all2b ostep_eqb) (map (fun r => flat_map to_ostep (snd r)) both) games
+  && all2b fen_is (map fst vis) fens.
+
+Lemma visited_some start toks :
+  visited start (map Some toks) = flat_map (path_pos start) toks.
+Proof. unfold visited. induction toks as [|t ts IH]; [reflexivity|]. cbn [map flat_map]. now rewrite IH. Qed.
+
+Lemma both_vis toks :
+  flat_map fst (map (walk_both rkey start_pos (rkey start_pos)) toks)
+  = map (fun q => (q, rkey q)) (visited start_pos (map Some toks)).
+Proof.
+  rewrite visited_some. induction toks as [|t ts IH]; [reflexivity|].
+  cbn [map flat_map]. rewrite IH, walk_both_spec, map_app. reflexivity.
+Qed.
+
+(* what a passed check means: the hypothesis of the threaded theorems holds for these games, the
+   model's steps are the recorded steps of the engine, and the visited positions are the
+   engine's positions *)
+Theorem book_visited_case_ok_sound games toks fens :
+  book_visited_case_ok games toks fens = true ->
+  NoColl rkey (visited start_pos (map Some toks)) /\
+  map (fun t => flat_map to_ostep (walk_pos rkey start_pos t)) toks = games /\
+  map FenSpec.parse fens = map Some (visited start_pos (map Some toks)).
+Proof.
+  unfold book_visited_case_ok. cbv zeta. rewrite both_vis, !andb_true_iff. intros [[H1 H2] H3]. repeat split.
+  - apply nocollb_sound. now rewrite <- nocollb_keyed_spec.
+  - apply (all2b_eq (all2b ostep_eqb)) in H2; [|apply all2b_eq, ostep_eqb_sound]. rewrite H2.
+    rewrite map_map. apply map_ext. intros t. now rewrite walk_both_spec.
+  - rewrite map_map, map_id in H3. revert H3. apply all2b_sound. intros p fen. unfold fen_is.
+    destruct (FenSpec.parse fen) as [q|]; [|discriminate]. intros E. apply pos_eqb_sound in E. now subst.
+Qed.
+
+(* the closed statement for a checked collection: legality, successor and "offered once" for the
+   position-threaded build under every interleaving - no collision hypothesis left *)
+Corollary book_moves_legal_once_checked games toks fens sched b :
+  book_visited_case_ok games toks fens = true ->
+  let gs := map Some toks in
+  let posof := posof_of rkey (visited start_pos gs) in
+  Interleave (map (game_steps_pos rkey start_pos) gs) sched ->
+  run (rkey start_pos) sched (init_book (rkey start_pos)) = Some b ->
+  forall k e, b !! k = Some e ->
+    (forall mv nk, In (mv, nk) (succs e) ->
+       legal_at posof k mv /\ nk = succ_at rkey posof k mv /\ is_Some (b !! nk)) /\
+    (forall i j mv n1 n2, nth_error (succs e) i = Some (mv, n1) ->
+                          nth_error (succs e) j = Some (mv, n2) -> i = j).
+Proof.
+  intros H gs posof. destruct (book_visited_case_ok_sound _ _ _ H) as (Hn & _ & _).
+  exact (book_moves_legal_once_threaded rkey start_pos gs sched b (key_of_core _) Hn).
+Qed.
+
+(* the check of one collection of the correspondence run: BookModel.book_case_ok (real book =
+   specification of the recorded games) and the above *)
+Definition book_case_full_ok (root : N) (games : list (list ostep)) (observed : list oentry)
+                             (toks : list (list BookModel.str)) (fens : list FenSpec.str) : bool :=
+  (rkey start_pos =? root) && book_case_ok root games observed && book_visited_case_ok games toks fens.
+
+(* non-vacuity: the example lines pass, a wrong step or a wrong position does not *)
+Example book_visited_case_ok_ex :
+  let toks := [[tok_e2e3; tok_e7e6; tok_g1f3]; [tok_Nf3; tok_e6; tok_e3]] in
+  let games := map (fun t => flat_map to_ostep (walk_pos rkey start_pos t)) toks in
+  let fens := map (fun p => FenSpec.print p) (visited start_pos (map Some toks)) in
+  book_visited_case_ok games toks fens = true /\
+  book_visited_case_ok (map (fun g => tl g) games) toks fens = false /\
+  book_visited_case_ok games toks (tl fens) = false.
+Proof. vm_compute. repeat split; reflexivity. Qed.
+
+(* ... and the collision test itself: with a key that forgets the castling rights the start position
+   and the same placement without rights collide (real key: they do not); with the real key the
+   example lines are collision free, with a constant key they are not *)
+Example nocollb_keyed_bites :
+  let q := mkpos (brd start_pos) WHITE 0 64 0 1 in
+  nocollb_keyed [(start_pos, rkey q); (q, rkey q)] = false /\
+  nocollb_keyed [(start_pos, rkey start_pos); (q, rkey q)] = true /\
+  nocollb_keyed (map (fun p => (p, rkey p)) (visited start_pos ex_lines)) = true /\
+  nocollb_keyed (map (fun p => (p, 0)) (visited start_pos ex_lines)) = false.
+Proof. vm_compute. repeat split; reflexivity. Qed.
+
 (** ** Assumptions *)
 Print Assumptions parse_token_sound.
 Print Assumptions legal_code_inj.
@@ -480,3 +655,5 @@ Print Assumptions book_moves_legal_once_threaded.
 Print Assumptions nocollb_sound.
 Print Assumptions walk_ipos_eq.
 Print Assumptions book_legal_ex.
+Print Assumptions book_visited_case_ok_sound.
+Print Assumptions book_moves_legal_once_checked.
